@@ -1451,8 +1451,27 @@ func genRequest(rng *rand.Rand) sreq {
 		}
 		q.Subs = append(q.Subs, s)
 	}
+	if rng.Intn(10) == 0 {
+		// Two different paths whose index elements, joined by "/", read the same:
+		// a[k=b/c] is indexed [a, b/c], a[k=b]/c is indexed [a, b, c]. Both are
+		// subscriptions of their own.
+		x, y, z := names3[rng.Intn(3)], names3[rng.Intn(3)], names3[rng.Intn(3)]
+		pair := []ppath{
+			{Elems: []pelem{{N: x, K: map[string]string{"k": y + "/" + z}}}},
+			{Elems: []pelem{{N: x, K: map[string]string{"k": y}}, {N: z}}},
+		}
+		if rng.Intn(2) == 0 {
+			pair[0], pair[1] = pair[1], pair[0]
+		}
+		q.Subs = append(q.Subs, pair...)
+		joinCollidingPairs++
+	}
 	return q
 }
+
+// joinCollidingPairs counts requests that carry a pair of subscription paths
+// whose "/"-joined index elements coincide.
+var joinCollidingPairs int64
 
 // genNotif draws a notification, most of the time derived from the index path
 // of one of the subscriptions (globs instantiated, truncated, extended or
@@ -1997,6 +2016,7 @@ func body(r *vlib.Run) {
 	modeHistory(r)
 	modeServer(r)
 	r.Count("server_update_entries_with_path_level_origin", pathOriginUpdates)
+	r.Count("server_requests_with_join_colliding_path_pairs", joinCollidingPairs)
 	modeConcRemove(r)
 }
 
